@@ -11,14 +11,15 @@ from mc.fakes import FakeResponse, patched_http
 
 ID = 'C26'
 LEVEL = 'fault_enumeration'
-RULE = ('complete tree of node answers: every sequence over the 13-answer alphabet that the real retry loop can '
+RULE = ('complete tree of node answers: every sequence over the 17-answer alphabet that the real retry loop can '
         'consume (it asks for another answer or finishes); non-trivial = distinct sequences with >=1 retry-eligible '
         'answer; leaves compared with the statement: #requests, delay list, returned JSON / raised error of the last response')
 BOUND = {'quick': 'all answer sequences up to the attempt cap (depth<=7), method GET',
          'thorough': 'same tree x {GET,POST,PUT,DELETE} x timeout in {None,5}'}
 ASSUMPTIONS = ['requests.request and time.sleep (as imported by pytezos.rpc.node) are the only environment seams',
-               'answers mixing a proto.* error with the prevalidator marker, or temporary with permanent errors, '
-               'are left out: the statement does not order those rules']
+               'a JSON error list that contains a proto.* entry is not transient whatever its other entries are (the statement: "errors are temporary '
+               'and not protocol errors"); answers mixing a proto.* error with the prevalidator TEXT marker, or non-protocol temporary with '
+               'non-protocol permanent errors, are left out: the statement does not order those rules']
 
 T1 = [{'kind': 'temporary', 'id': 'node.prevalidation.busy'}]
 T2 = [{'kind': 'permanent', 'id': 'a.b'}, {'kind': 'temporary', 'id': 'c.d'}]
@@ -37,6 +38,12 @@ ALPHABET = {
     'e401': (401, 'no', 'text/plain', False),
     'e404': (404, 'no', 'text/plain', False),
     't400': (400, T1, 'application/json', False),
+    # a body that contains a protocol error is a domain failure even if another entry is temporary (either order)
+    'mixproto500': (500, [{'kind': 'temporary', 'id': 'node.prevalidation.busy'}, {'kind': 'permanent', 'id': 'proto.alpha.contract.balance_too_low'}], 'application/json', False),
+    'protomix500': (500, [{'kind': 'permanent', 'id': 'proto.alpha.gas_exhausted.operation'}, {'kind': 'temporary', 'id': 'node.mempool.busy'}], 'application/json', False),
+    # client errors are never retried, whatever their body looks like
+    'preval400': (400, 'Assert_failure src/lib_shell/prevalidator.ml:1918', 'text/plain', False),
+    't404': (404, T1, 'application/json', False),
 }
 NAMES = list(ALPHABET)
 DELAYS = [0.25, 0.5, 1.0, 2.0, 2.0]
